@@ -171,7 +171,8 @@ def num_jac(t, xs, i, is_real):
     return (cols[0].real, cols[1].real, cols[0].imag, cols[1].imag), err
 
 def check_tree(t, vals, kinds, us):
-    """returns None or a dict describing a failing input.  kinds[i] in {'c','r'}"""
+    """returns None or a dict describing a failing input.  kinds[i] in {'c','r','i'}: elementary ucomplex, elementary
+    ureal, INTERMEDIATE ureal (result() of a sum of two elementary ureals)"""
     from GTC import core, reporting, lib
     new_context(7)
     if known_region(t, vals): return None
@@ -180,15 +181,20 @@ def check_tree(t, vals, kinds, us):
         if not (math.isfinite(y0.real) and math.isfinite(y0.imag)) or abs(y0) > 1e6: return None
     except (ArithmeticError, ValueError, OverflowError, ZeroDivisionError, TypeError):
         return None
-    ins = [core.ucomplex(v, u) if k == 'c' else core.ureal(v, u[0]) for v, k, u in zip(vals, kinds, us)]
+    def mk(v, k, u):
+        if k == 'c': return core.ucomplex(v, u)
+        if k == 'i': return core.result(core.ureal(v - 0.25, u[0]) + core.ureal(0.25, u[1]))
+        return core.ureal(v, u[0])
+    ins = [mk(v, k, u) for v, k, u in zip(vals, kinds, us)]
     try:
         y = ev_gtc(t, ins, core)
     except Exception as ex:
+        if 'i' in kinds and isinstance(ex, AssertionError): return None      # known finding C01-intermediate-times-complex
         return {'tree': t, 'x': [str(v) for v in vals], 'kinds': kinds, 'u': us, 'raises': type(ex).__name__}
     if not isinstance(y, (lib.UncertainComplex, lib.UncertainReal)): return None
     for i, x in enumerate(ins):
         try:
-            J, err = num_jac(t, vals, i, kinds[i] == 'r')
+            J, err = num_jac(t, vals, i, kinds[i] != 'c')
         except (ArithmeticError, ValueError, OverflowError, ZeroDivisionError, TypeError):
             continue
         scale = max(1.0, max(abs(v) for v in J))
@@ -198,7 +204,7 @@ def check_tree(t, vals, kinds, us):
         Cc = tuple(Cc) if isinstance(Cc, tuple) else (float(Cc), 0.0, 0.0, 0.0)
         if isinstance(y, lib.UncertainReal): J = (J[0], J[1], 0.0, 0.0)
         tol = 1e-5 * scale + 10 * err
-        ux = (us[i][0], us[i][1] if kinds[i] == 'c' else 0.0)
+        ux = (us[i][0], us[i][1]) if kinds[i] == 'c' else (float(x.u), 0.0)
         want_c = (S[0] * ux[0], S[1] * ux[1], S[2] * ux[0], S[3] * ux[1])
         if any(abs(a - b) > tol for a, b in zip(S, J)) or any(abs(a - b) > 1e-12 * max(1.0, abs(a)) for a, b in zip(Cc, want_c)):
             return {'tree': t, 'x': [str(v) for v in vals], 'kinds': kinds, 'u': us, 'input': i,
@@ -221,10 +227,22 @@ def search(rng, tier, broken):
                 tried += 1
                 r = check_tree(t, [1.25 + 0.75j], ['c'], [(0.5, 0.25)])
                 if r is not None and 'raises' not in r: return {'tried': tried, 'failing': r}
+    # complex numbers assembled from uncertain reals (elementary / intermediate in either component), through every
+    # function and operator, queried w.r.t. both real inputs
+    def asm(a, b, c=2j): return ('bin', 'add', ('var', a), ('bin', 'mul', ('num', c), ('var', b)))
+    for ka, kb in (('i', 'r'), ('r', 'i'), ('i', 'i'), ('r', 'r')):
+        for (xa, xb) in ((0.65, -0.9), (-0.4, 0.35)):
+            Z = asm(0, 1, 1j if kb == 'r' else 2j)
+            trees = [('un', f, Z) for f in PLAIN] + [('bin', f, Z, ('num', 2 - 1j)) for f in BINP] + \
+                    [('bin', f, ('num', 0.5 + 1j), Z) for f in BINP] + [('bin', 'mul', Z, Z), ('bin', 'div', ('var', 0), Z)]
+            for t in trees:
+                tried += 1
+                r = check_tree(t, [xa, xb], [ka, kb], [(0.03, 0.04), (0.05, 0.02)])
+                if r is not None and 'raises' not in r: return {'tried': tried, 'failing': r}
     for _ in range(n):
         nin = rng.randint(1, 3)
         t = rand_tree(rng, nin, rng.randint(1, 4))
-        kinds = [rng.choice(['c', 'c', 'r']) for _ in range(nin)]
+        kinds = [rng.choice(['c', 'c', 'r', 'i']) for _ in range(nin)]
         vals = [complex(round(rng.uniform(-2.5, 2.5), 3), round(rng.uniform(-2.5, 2.5), 3)) if k == 'c' else round(rng.uniform(-2.5, 2.5), 3)
                 for k in kinds]
         us = [(round(rng.uniform(0.05, 1.0), 3), round(rng.uniform(0.05, 1.0), 3)) for _ in range(nin)]
@@ -235,7 +253,11 @@ def search(rng, tier, broken):
     return {'tried': tried, 'failing': None}
 
 def tuple_tree(t):
-    return tuple(tuple_tree(x) if isinstance(x, list) else x for x in t)
+    """a tree read back from JSON: lists -> tuples, complex literals (written as strings) -> complex"""
+    t = tuple(tuple_tree(x) if isinstance(x, list) else x for x in t)
+    if t and t[0] == 'num' and isinstance(t[1], str):
+        return ('num', complex(t[1]))
+    return t
 
 def _vals(f):
     return [complex(v) if k == 'c' else float(complex(v).real) for v, k in zip(f['x'], f['kinds'])]
